@@ -25,7 +25,7 @@ def table_part(ctx):
     ctx.notes.append("globals table: %d rows (%d in .data/.bss/COMMON of the -O2 objects), AST facts %s, %.1fs" % (
         len(rows), sum(1 for r in rows if r["section"] in ("data", "bss", "common")), stats, time.time() - t0))
     res = tablecheck.run("C20", "GlobalsTable", "globals", "global_key", "global_ok", "no_written_global",
-                         "forall g, In g globals -> forall w, In w (g_writers g) -> In (w_fn w) lifecycle_functions",
+                         "forall g, In g globals -> forall w, In w (g_writers g) -> exists a, In a allow_list /\\ aw_global a = g_name g /\\ aw_fn a = w_fn w",
                          "globals_table_sound")
     ctx.cov["obligations"] += 1
     ctx.cov.setdefault("theorems", []).append({"name": "no_written_global (instance over coq/Gen/GlobalsTable.v, %s rows)" % res["rows"],
@@ -103,6 +103,11 @@ def cases(ctx):
     out.append(("conc 4 %d 1 all" % r.below(10**6), "conc:all:threads=4"))
     out.append(("conc 5 %d 2 sm2_sign,sm2_encrypt,hashes,sm4_modes,tls_cbc,x509_parse" % r.below(10**6), "conc:mixed:threads=5"))
     if thorough:
+        # one run per public interface family (ASan transcript comparison and TSan each)
+        for fam, ops in (("hash", "hashes"), ("ciphers", "sm4_modes,tls13_gcm"), ("sm2", "sm2_keygen,sm2_sign,sm2_sign_ctx,sm2_encrypt,sm2_ecdhe"),
+                         ("sm9", "sm9_sign,sm9_encrypt,sm9_exchange"), ("pkcs8", "pkcs8,pkcs8_wrongpass"), ("x509", "x509_sign,x509_parse"),
+                         ("cms", "cms_sign,cms_envelop,cms_encrypt"), ("tls-record", "tls_cbc,tls_cbc_badmac,tls_record,tls_random,tls_pms,tls13_gcm")):
+            out.append(("conc 6 %d 2 %s" % (r.below(10**6), ops), "conc:family-%s:threads=6" % fam))
         out.append(("conc 16 %d 2 all" % r.below(10**6), "conc:all:threads=16"))
         out.append(("conc 9 %d 3 all" % r.below(10**6), "conc:all:threads=9"))
     return out
